@@ -1,15 +1,130 @@
-(** C12 — placeholder while the proofs are being written (replaced below). *)
-From Coq Require Import ZArith NArith List Bool.
-From V.C12 Require Import Ty Unify.
-Import ListNotations.
-Open Scope N_scope.
+(** C12 — Type inference finds an instantiation exactly when one exists.
 
-(* the pre-patch `_unify_var` returns a cyclic substitution *)
-Theorem unify_coded_sound_refuted :
-  exists s t sg, unify_coded 100 s t [] = Unifier sg /\ forall n, resolve n sg s = None.
+    All statements are about the executable model coq/C12/Unify.v (`unify`, `_unify_var`,
+    `_occurs`, `_unify_args`, closure `resolve`) of guppylang_internals/tys/ty.py with
+    props/C12/fix-1.patch applied; the model is tied to /repo by the differential harness of
+    props/C12 on every run.  Vocabulary (defined in Proofs*.v, all independent of `unify`):
+      wfs sb            the prior substitution is consistent: "x is solved by a term mentioning y"
+                        is a well-founded relation (no variable depends on itself)
+      inst th t         apply an assignment th : N -> ty of ALL inference variables to t
+      solves th sb      th satisfies every equation x = sb[x] exactly
+      same u v          u and v are identical up to what unify never inspects: ownership flags of
+                        function inputs (compared only when both inputs are linear) and the
+                        copy/drop flags of bound variables
+      sol pr_flags th sb   th satisfies every equation of sb up to `same`
+      resolve m sb t    the idempotent closure sb* applied to t (None = fuel m too small)
+    Fuel: `unify n` returns OutOfFuel when n is too small; `unify_terminates` shows that on
+    consistent substitutions enough fuel always exists and the answer no longer depends on it. *)
+From Coq Require Import ZArith NArith List Bool Lia.
+From V.C12 Require Import Ty TyFacts Unify Proofs Proofs2 Proofs3 Proofs4.
+Import ListNotations.
+
+(* 0. the type language has decidable equality *)
+Theorem ty_eqb_decides : forall s t, ty_eqb s t = true <-> s = t.
+Proof. exact ty_eqb_spec. Qed.
+Print Assumptions ty_eqb_decides.
+
+(* 1. termination *)
+Theorem unify_terminates : forall sb s t, wfs sb ->
+  exists n r, r <> OutOfFuel /\ forall m, n <= m -> unify m s t sb = r.
+Proof. intros sb s t W. exact (unify_total sb s t W). Qed.
+Print Assumptions unify_terminates.
+
+(* 2. soundness w.r.t. the idempotent closure: the result extends the prior solution, is again
+      consistent, and resolving both sides through it gives the same type *)
+Theorem unify_sound : forall n s t sb sb', wfs sb -> unify n s t sb = Unifier sb' ->
+  wfs sb' /\ (exists d, sb' = d ++ sb) /\
+  exists m u v, resolve m sb' s = Some u /\ resolve m sb' t = Some v /\ same u v.
+Proof. exact sound_main. Qed.
+Print Assumptions unify_sound.
+
+(* 2b. ... hence success implies that an instantiation exists *)
+Theorem unify_success_instance : forall n s t sb sb', wfs sb -> unify n s t sb = Unifier sb' ->
+  exists th, sol pr_flags th sb /\ same (inst th s) (inst th t).
+Proof. exact sound_asg. Qed.
+Print Assumptions unify_success_instance.
+
+(* 3. completeness: if some assignment extending the prior solution makes the two sides identical,
+      unification succeeds (for every sufficiently large fuel, with one and the same answer) *)
+Theorem unify_complete : forall s t sb, wfs sb ->
+  (exists th, solves th sb /\ inst th s = inst th t) ->
+  exists n sb', forall m, n <= m -> unify m s t sb = Unifier sb'.
 Proof.
-  exists (TTuple [Ex 14; Ex 22]), (TTuple [TTuple [Ex 22]; TTuple [Ex 14]]).
-  eexists. split. vm_compute. reflexivity.
-  induction n as [|n IH]; [reflexivity|].
-  destruct n as [|[|[|[|n]]]]; try reflexivity.
-Abort.
+  intros s t sb W [th [Hs He]]. destruct (unify_total sb s t W) as [n [r [Hr Hn]]].
+  destruct r as [| |sb'].
+  - congruence.
+  - exfalso. apply (complete_main n s t sb th Hs He). apply Hn. lia.
+  - exists n, sb'. exact Hn.
+Qed.
+Print Assumptions unify_complete.
+
+(* 3b. a `None` answer is never wrong *)
+Theorem unify_none_correct : forall n s t sb, unify n s t sb = NoUnifier ->
+  ~ exists th, solves th sb /\ inst th s = inst th t.
+Proof. intros n s t sb H [th [Hs He]]. exact (complete_main n s t sb th Hs He H). Qed.
+Print Assumptions unify_none_correct.
+
+(* 4. most general: every assignment that satisfies the prior solution and unifies the two sides
+      satisfies the returned substitution, and therefore factors through its closure
+      (th o sb'* = th);  conversely the solutions of the result are exactly those assignments *)
+Theorem unify_mgu : forall n s t sb sb' th, unify n s t sb = Unifier sb' ->
+  sol pr_flags th sb -> same (inst th s) (inst th t) ->
+  sol pr_flags th sb' /\ forall m w u, resolve m sb' w = Some u -> same (inst th u) (inst th w).
+Proof. exact mgu_main. Qed.
+Print Assumptions unify_mgu.
+
+Theorem unify_solution_set : forall n s t sb sb' th, unify n s t sb = Unifier sb' ->
+  (sol pr_flags th sb' <-> sol pr_flags th sb /\ same (inst th s) (inst th t)).
+Proof. exact result_char. Qed.
+Print Assumptions unify_solution_set.
+
+(* 5. the code as it was before fix-1.patch is unsound and does not terminate *)
+Open Scope N_scope.
+Definition A := Ex 14. Definition B := Ex 22.
+Theorem unify_coded_sound_refuted :
+  exists s t sb', unify_coded 100 s t [] = Unifier sb' /\ forall th, ~ solves th sb'.
+Proof.
+  exists (TTuple [A; B]), (TTuple [TTuple [B]; TTuple [A]]). eexists. split. vm_compute. reflexivity.
+  intros th H. pose proof (H 14 _ eq_refl) as H1. pose proof (H 22 _ eq_refl) as H2.
+  apply (f_equal size) in H1. apply (f_equal size) in H2. simpl in H1, H2. lia.
+Qed.
+Print Assumptions unify_coded_sound_refuted.
+
+Example unify_coded_diverges_witness :
+  unify_coded 3000 (TTuple [A; B; A]) (TTuple [TTuple [B]; TTuple [A]; TTuple [A]]) [] = OutOfFuel.
+Proof. vm_compute. reflexivity. Qed.
+Example unify_coded_const_cycle :   (* unify(m, n, {n: m}) = {m: n, n: m} *)
+  unify_coded 100 (Ex 175) (Ex 167) [(167, Ex 175)] = Unifier [(175, Ex 167); (167, Ex 175)].
+Proof. vm_compute. reflexivity. Qed.
+Example unify_fixed_on_witnesses :
+  unify 100 (TTuple [A; B]) (TTuple [TTuple [B]; TTuple [A]]) [] = NoUnifier /\
+  unify 100 (TTuple [A; B; A]) (TTuple [TTuple [B]; TTuple [A]; TTuple [A]]) [] = NoUnifier /\
+  unify 100 (Ex 175) (Ex 167) [(167, Ex 175)] = Unifier [(167, Ex 175)].
+Proof. vm_compute. auto. Qed.
+
+(* 6. the hypotheses are satisfiable on non-trivial instances *)
+Example ex_pair :     (* (A, A) ~ (B, int) from {} : triangular answer, closure (int, int) on both sides *)
+  unify 100 (TTuple [A; A]) (TTuple [B; TNum KInt]) [] = Unifier [(22, TNum KInt); (14, B)] /\
+  app [(22, TNum KInt); (14, B)] (TTuple [A; A]) = TTuple [B; B] /\          (* ONE Substituter pass is not enough *)
+  resolve 10 [(22, TNum KInt); (14, B)] (TTuple [A; A]) = Some (TTuple [TNum KInt; TNum KInt]) /\
+  resolve 10 [(22, TNum KInt); (14, B)] (TTuple [B; TNum KInt]) = Some (TTuple [TNum KInt; TNum KInt]).
+Proof. vm_compute. auto. Qed.
+
+Example ex_wfs_prior : wfs [(22, TNum KInt); (14, B)].
+Proof. apply (unify_sound 100 (TTuple [A; A]) (TTuple [B; TNum KInt]) [] _ wfs_nil). vm_compute. reflexivity. Qed.
+
+Example ex_complete_hyp :   (* prior solution {A := B}; B ~ list[int] has the exact unifier below *)
+  let sb := [(14, B)] in let th := fun _ : N => TOpaque list_def [argT (TNum KInt)] in
+  wfs sb /\ solves th sb /\ inst th B = inst th (TOpaque list_def [argT (TNum KInt)]).
+Proof.
+  simpl. split; [|split].
+  - apply (unify_sound 100 A B [] _ wfs_nil). vm_compute. reflexivity.
+  - intros x w. simpl. destruct (N.eqb x 14); [intros [= <-]; reflexivity|discriminate].
+  - reflexivity.
+Qed.
+
+Example ex_flags :   (* linear inputs must agree on flags; non-linear ones need not *)
+  unify 100 (TFun [(TOpaque qubit_def [], 2)] TNone [] []) (TFun [(TOpaque qubit_def [], 0)] TNone [] []) [] = NoUnifier /\
+  unify 100 (TFun [(TNum KInt, 2)] TNone [] []) (TFun [(TNum KInt, 0)] TNone [] []) [] = Unifier [] /\
+  same (TFun [(TNum KInt, 2)] TNone [] []) (TFun [(TNum KInt, 0)] TNone [] []).
+Proof. vm_compute. auto. Qed.
